@@ -754,10 +754,12 @@ class _Method(XML_Method):
     Some magic to bind an JSON-RPC method to an RPC server.
     """
 
-    def __call__(self, *args, **kwargs):
+    def __call__(*args, **kwargs):
         """
         Sends an RPC request and returns the unmarshalled result
         """
+        # "self" can be the name of a keyword argument of the remote method
+        self, args = args[0], args[1:]
         if args and kwargs:
             raise ProtocolError(
                 "Cannot use both positional and keyword "
@@ -824,10 +826,12 @@ class MultiCallMethod(object):
         self.notify = notify
         self._config = config
 
-    def __call__(self, *args, **kwargs):
+    def __call__(*args, **kwargs):
         """
         Normalizes call parameters
         """
+        # "self" can be the name of a keyword argument of the remote method
+        self, args = args[0], args[1:]
         if kwargs and args:
             raise ProtocolError(
                 "JSON-RPC does not support both "
